@@ -84,7 +84,8 @@ GroupErrors(r, g) ==
        ELSE IF need > r.max_pdi
        THEN (IF gr.result # "err:PdiTooLong" THEN {<<"TooLongNotRefused", g, need, gr.result>>} ELSE {})
        ELSE IF gr.result = "err:PdiTooLong" THEN {<<"FitsButRefused", g, need>>}
-       ELSE IF gr.result # "ok" THEN {}          \* other failures are not this property's business
+       \* the generated devices are well-formed: nothing but the capacity can make the configuration fail
+       ELSE IF gr.result # "ok" THEN {<<"ConfigurationFailed", g, gr.result>>}
        ELSE
         UNION { DirErrors("in", ms[n], r.obs_fmmu[ms[n]], 2, r.devs[ms[n]].ins, gr.subs[n].in_len)
                 \cup DirErrors("out", ms[n], r.obs_fmmu[ms[n]], 1, r.devs[ms[n]].outs, gr.subs[n].out_len)
